@@ -1,7 +1,7 @@
 (* C13 -- property theorems only.  Proofs live in C13/Proofs*.v. *)
 From Coq Require Import NArith List Sorted.
 From DV Require Import Base.Outcome Base.Bytes Base.Lex Base.Names C11.Sha C13.Gen C13.Model
-  C13.ProofsBitmap C13.ProofsNames C13.ProofsNsec2 C13.ProofsDeny C13.ProofsN3c C13.ProofsN3d C13.ProofsN3e.
+  C13.ProofsBitmap C13.ProofsNames C13.ProofsNsec2 C13.ProofsDeny C13.ProofsGroups C13.ProofsN3c C13.ProofsN3d C13.ProofsN3e C13.ProofsN3f C13.ProofsDedup.
 Import ListNotations.
 Local Open Scope N_scope.
 
@@ -57,6 +57,15 @@ Theorem C13_nsec_no_panic : forall apex dk z, no_panic (generate_nsecs apex dk z
 Proof. exact nsec_no_panic. Qed.
 Print Assumptions C13_nsec_no_panic.
 
+Theorem C13_nsec_total : forall apex dk z, zone_sorted z -> has_type z apex 6 ->
+  Forall soa_ok (groups (skip_before apex z)) -> exists out, generate_nsecs apex dk z = Ok out.
+Proof. exact nsec_total. Qed.
+Print Assumptions C13_nsec_total.
+
+Theorem C13_nsec3_no_panic : forall H apex c z, zone_sorted z -> no_panic (generate_nsec3s H apex c z).
+Proof. exact nsec3_no_panic. Qed.
+Print Assumptions C13_nsec3_no_panic.
+
 Theorem C13_nsec3_hash_is_rfc5155 : forall n iterations salt,
   c13_hash n iterations salt = rfc5155_IH sha1 salt (wire_abs (canon n)) (N.to_nat iterations) /\
   length (c13_hash n iterations salt) = 20%nat.
@@ -100,3 +109,8 @@ Theorem C13_nsec3_denies : forall H apex c z out,
       ((h_owner r = hashn H c n /\ bm_contains (h_types r) t = Ok false) \/ h3_covers r (hashn H c n)).
 Proof. exact nsec3_denies. Qed.
 Print Assumptions C13_nsec3_denies.
+
+Theorem C13_sorted_records_keep_types : forall l o x,
+  has_type (strip (sr_dedup l)) o x <-> has_type (strip l) o x.
+Proof. exact sorted_records_keep_types. Qed.
+Print Assumptions C13_sorted_records_keep_types.
